@@ -752,6 +752,11 @@ C14_ServerTableExact ==
 C14_GoroutinesBaseline ==
   (q.at /\ q.g >= 0 /\ tun.baseG >= 0 /\ q.ctab <= 0 /\ q.stab = 0 /\ q.h = <<>> /\ q.blocked = <<>>
         /\ q.parked = <<>>) => q.g <= tun.baseG
+\* once both ends of the tunnel are gone and no handler runs and no call is blocked, no goroutine
+\* started on the tunnel's behalf remains (long before the harness tears anything down)
+C14_NothingAfterBothEnds ==
+  (q.at /\ q.g >= 0 /\ q.chdone /\ q.nsrv = 0 /\ tun.serveRet /\ q.h = <<>> /\ q.blocked = <<>> /\ q.parked = <<>>
+        /\ QuietWire) => q.g = 0
 C14_NothingAfterTunnel ==
   (q.at /\ q.final) => q.g = 0 /\ q.ctab <= 0 /\ q.stab = 0 /\ q.nsrv = 0
 
@@ -808,7 +813,7 @@ Formulas == [
   C04_ClientObserves |-> C04_ClientObserves, C04_ServerObserves |-> C04_ServerObserves,
   C04_ErrNilIffClean |-> C04_ErrNilIffClean, C04_FailFast |-> C04_FailFast,
   C14_ClientTableExact |-> C14_ClientTableExact, C14_ServerTableExact |-> C14_ServerTableExact,
-  C14_GoroutinesBaseline |-> C14_GoroutinesBaseline, C14_NothingAfterTunnel |-> C14_NothingAfterTunnel,
+  C14_GoroutinesBaseline |-> C14_GoroutinesBaseline, C14_NothingAfterBothEnds |-> C14_NothingAfterBothEnds, C14_NothingAfterTunnel |-> C14_NothingAfterTunnel,
   C10_RefusedAfterShutdown |-> C10_RefusedAfterShutdown, C10_GracefulStopReturns |-> C10_GracefulStopReturns,
   C10_StopMeansStopped |-> C10_StopMeansStopped,
   C16_SecondSendRefused |-> C16_SecondSendRefused, C16_OneRequestOnly |-> C16_OneRequestOnly,
